@@ -192,7 +192,7 @@ def c17(run):
         cases = [run.replay['source_case']]
     for i, c in enumerate(cases):
         c['ci'] = i
-    body, summary, oks = run.harness('c17', cases)
+    body, summary, oks = run.harness('c17', cases, seeds=run.q(1, 2))
     tpath = os.path.join(run.work, 'c17_out.ndjson.trace_framing.ndjson')
     if os.path.exists(tpath):
         # implementation -> specification: every read() of a literal packet through Message, in every framing of the bound (truncated ones
@@ -374,7 +374,7 @@ def c09(run):
         cases = [run.replay['source_case']]
     for i, c in enumerate(cases):
         c['ci'] = i
-    body, summary, oks = run.harness('c09', cases, timeout=3000)
+    body, summary, oks = run.harness('c09', cases, timeout=3000, seeds=run.q(1, 2))
     run.distinct_nontrivial = summary['extra']['nontrivial']
     run.traces_validated = summary['evaluations']
     run.exhaustive = False
@@ -431,7 +431,7 @@ def c01(run):
         cases = [run.replay['source_case']]
     for i, c in enumerate(cases):
         c['ci'] = i
-    body, summary, oks = run.harness('c01', cases, timeout=3400)
+    body, summary, oks = run.harness('c01', cases, timeout=3400, seeds=run.q(1, 4))
     run.distinct_nontrivial = summary['extra']['nontrivial']
     run.traces_validated = summary['evaluations']
     run.exhaustive = False
@@ -580,7 +580,7 @@ def c18(run):
         cases = [run.replay['source_case']]
     for i, c in enumerate(cases):
         c['ci'] = i
-    body, summary, oks = run.harness('c18', cases, timeout=3300)
+    body, summary, oks = run.harness('c18', cases, timeout=3300, seeds=run.q(1, 2))
     run.distinct_nontrivial = summary['extra']['nontrivial']
     run.traces_validated = summary['evaluations']
     run.exhaustive = run.tier == 'thorough'
@@ -612,7 +612,7 @@ def c15(run):
         cases = [run.replay['source_case']]
     for i, c in enumerate(cases):
         c['ci'] = i
-    body, summary, oks = run.harness('c15', cases, timeout=3300)
+    body, summary, oks = run.harness('c15', cases, timeout=3300, seeds=run.q(1, 4))
     run.distinct_nontrivial = summary['extra']['nontrivial']
     run.traces_validated = summary['evaluations']
     run.exhaustive = True
@@ -654,7 +654,7 @@ def c08(run):
         cases = [run.replay['source_case']]
     for i, c in enumerate(cases):
         c['ci'] = i
-    body, summary, oks = run.harness('c08', cases, timeout=3300)
+    body, summary, oks = run.harness('c08', cases, timeout=3300, seeds=run.q(1, 2))
     run.distinct_nontrivial = summary['extra']['nontrivial']
     run.traces_validated = summary['evaluations']
     run.exhaustive = run.tier != 'thorough'
@@ -687,7 +687,7 @@ def c05(run):
         cases = [run.replay['source_case']]
     for i, c in enumerate(cases):
         c['ci'] = i
-    body, summary, oks = run.harness('c05', cases, timeout=3300)
+    body, summary, oks = run.harness('c05', cases, timeout=3300, seeds=run.q(1, 4))
     run.distinct_nontrivial = summary['extra']['nontrivial']
     run.traces_validated = summary['evaluations']
     run.rule = ('WireGrammar.tla describes RFC 9580 packet bodies as token sequences (u8/be16/be32/bytes/str/mpi with encoding style/subpacket '
@@ -731,7 +731,7 @@ def c02(run):
         cases = [run.replay['source_case']]
     for i, c in enumerate(cases):
         c['ci'] = i
-    body, summary, oks = run.harness('c02', cases, timeout=3300)
+    body, summary, oks = run.harness('c02', cases, timeout=3300, seeds=run.q(1, 4))
     run.distinct_nontrivial = summary['extra']['nontrivial']
     run.traces_validated = summary['evaluations']
     run.rule = ('SigVerify.tla models a signature symbolically (digest = injective function of salt, canonical content / key framing, version, '
@@ -768,7 +768,7 @@ def c11(run):
         cases = [run.replay['source_case']]
     for i, c in enumerate(cases):
         c.setdefault('ci', i)
-    body, summary, oks = run.harness('c11', cases, timeout=3300)
+    body, summary, oks = run.harness('c11', cases, timeout=3300, seeds=run.q(1, 4))
     run.distinct_nontrivial = summary['extra']['nontrivial']
     run.traces_validated = summary['evaluations']
     run.rule = ('SigDigest.tla gives, for every signature type x signature version (3, 4, 6) x signed object, the RFC 9580 5.2.4 preimage as a token '
@@ -793,7 +793,7 @@ def c13(run):
     cases = [c for c in g.cases if c['kind'] in ('fingerprint', 'match')]
     for i, c in enumerate(cases):
         c.setdefault('ci', i)
-    body, summary, oks = run.harness('c13', cases, timeout=3300)
+    body, summary, oks = run.harness('c13', cases, timeout=3300, seeds=run.q(1, 3))
     run.distinct_nontrivial = summary['extra']['nontrivial']
     run.traces_validated = summary['evaluations']
     run.rule = ('SigDigest.tla states the fingerprint preimage, hash, length and key-id rule per key version (v3: MD5 over the RSA MPI values, key id = '
@@ -823,7 +823,7 @@ def c12(run):
     cases = g.cases
     for i, c in enumerate(cases):
         c.setdefault('ci', i)
-    body, summary, oks = run.harness('c12', cases, timeout=3300)
+    body, summary, oks = run.harness('c12', cases, timeout=3300, seeds=run.q(1, 3))
     run.distinct_nontrivial = summary['extra']['nontrivial']
     run.traces_validated = summary['evaluations']
     run.rule = ('SymLayouts.tla states each RFC 9580 symmetric / KDF construction as a PLAN: S2K count decoding, the repeat/tail split of salt||password and '
